@@ -390,6 +390,15 @@ def build_project(seed):
     L += ["type :: obj_t", "integer :: cnt = 0", "integer :: vals(5) = 0", "type(inner_t) :: inner", "contains",
           f"procedure :: {tfn} => impl_{tfn}", f"procedure :: {tsub} => impl_{tsub}", "end type obj_t"]
     L.append("contains")
+    # two early siblings without local variables: one holds an internal function named like a module array, the other imports a variable
+    # named like a module function - what they do to their own name tables must stay theirs
+    if rng.random() < 0.6:
+        forms_extra = True
+        L += [f"subroutine aa_first{seed % 1000}()", "contains", "integer function hist(i)", "integer, intent(in) :: i", "hist = i", "end function hist", f"end subroutine aa_first{seed % 1000}",
+              f"subroutine aa_second{seed % 1000}()", f"use cvars{seed % 1000}, only: {funcs[0]}", f"end subroutine aa_second{seed % 1000}"]
+        extra_files = {f"cvars{seed % 1000}.f90": [f"module cvars{seed % 1000}", "implicit none", f"integer :: {funcs[0]}(5) = 0", f"end module cvars{seed % 1000}"]}
+    else:
+        forms_extra, extra_files = False, {}
     for f in funcs:
         L += [f"integer function {f}(a)", "integer, intent(in) :: a", f"{f} = a + 1", f"end function {f}"]
     for s in subs_args:
@@ -454,6 +463,11 @@ def build_project(seed):
         units[uname.lower()] = calls
     L.append(f"end module {mod}")
     files = {f"{mod}.f90": L}
+    files.update(extra_files)
+    if forms_extra:
+        forms.add("sibling_without_locals_hides_or_imports_a_host_name")
+        units[f"aa_first{seed % 1000}"] = set()
+        units[f"aa_second{seed % 1000}"] = set()
     if prog_lines:
         files[f"prog{seed % 1000}.f90"] = prog_lines
     if ext_lines:
